@@ -168,14 +168,20 @@ MACS = {
 class Direction:
     """Keys for one direction, derived per RFC 4253 from (K, H, session id)."""
 
-    def __init__(self, cipher, mac, hashname, K, H, session_id, client_to_server):
+    def __init__(self, cipher, mac, hashname, K, H, session_id, client_to_server, _raw=None):
         kind, ksz, bsz, ivsz = CIPHERS[cipher]
         self.cipher = cipher
+        self.mac_name = mac
         self.kind = kind
         self.block = bsz
         iv_l, key_l, mac_l = (b"A", b"C", b"E") if client_to_server else (b"B", b"D", b"F")
-        self.iv = kdf(hashname, K, H, iv_l, session_id, ivsz)
-        self.key = kdf(hashname, K, H, key_l, session_id, ksz)
+        if _raw is None:
+            self.iv = kdf(hashname, K, H, iv_l, session_id, ivsz)
+            self.key = kdf(hashname, K, H, key_l, session_id, ksz)
+        else:
+            self.key, self.iv = bytes(_raw[0]), bytes(_raw[1])
+            if len(self.key) != ksz or len(self.iv) != ivsz:
+                raise RefError("raw key/iv size does not fit %s" % cipher)
         self.aead = kind == "gcm"
         if self.aead:
             self.mac = None
@@ -187,7 +193,10 @@ class Direction:
         else:
             hname, mkl, mol, etm = MACS[mac]
             self.mac = hname
-            self.mac_key = kdf(hashname, K, H, mac_l, session_id, mkl)
+            if _raw is None:
+                self.mac_key = kdf(hashname, K, H, mac_l, session_id, mkl)
+            else:
+                self.mac_key = bytes(_raw[2])
             self.mac_len = mol
             self.etm = etm
             if kind == "ctr":
@@ -199,6 +208,11 @@ class Direction:
             self._cipher = c
             self.enc = c.encryptor()
             self.dec = c.decryptor()
+
+    @classmethod
+    def from_raw(cls, cipher, mac, key, iv, mac_key=b""):
+        """Direction from explicit key material (fixed test vectors, recorded keys)."""
+        return cls(cipher, mac, None, None, None, None, True, _raw=(key, iv, mac_key))
 
     def nonce(self):
         return self.fixed + struct.pack(">Q", self.counter & 0xFFFFFFFFFFFFFFFF)
@@ -219,11 +233,18 @@ class PlainDirection:
 
 
 class Compressor:
-    def __init__(self):
-        self.z = zlib.compressobj(zlib.Z_DEFAULT_COMPRESSION)
+    """zlib stream spanning packets (RFC 4253 6.2: one context per key exchange, a partial
+    flush at the end of each packet). Any of the zlib sync-type flushes yields a stream a
+    conforming inflater decodes packet by packet; the default here is Z_PARTIAL_FLUSH (what
+    the RFC names and OpenSSH uses) so that, unlike paramiko's Z_FULL_FLUSH, later packets
+    do reference the history of earlier ones."""
+
+    def __init__(self, flush=zlib.Z_PARTIAL_FLUSH, level=zlib.Z_DEFAULT_COMPRESSION):
+        self.z = zlib.compressobj(level)
+        self.flush = flush
 
     def __call__(self, data):
-        return self.z.compress(data) + self.z.flush(zlib.Z_FULL_FLUSH)
+        return self.z.compress(data) + self.z.flush(self.flush)
 
 
 class Decompressor:
@@ -234,13 +255,18 @@ class Decompressor:
         return self.z.decompress(data)
 
 
-def padding_for(payload_len, block, length_excluded):
-    """Smallest legal padding (>=4) making the encrypted span a block multiple."""
+def padding_for(payload_len, block, length_excluded, extra_blocks=0):
+    """Smallest legal padding (>=4) making the encrypted span a block multiple, plus
+    `extra_blocks` further blocks of (legal, RFC 4253 6: "arbitrary-length") padding as
+    long as the total stays <= 255."""
     bs = max(block, 8)
     span = 1 + payload_len + (0 if length_excluded else 4)
     pad = bs - (span % bs)
     if pad < 4:
         pad += bs
+    while extra_blocks > 0 and pad + bs <= 255:
+        pad += bs
+        extra_blocks -= 1
     return pad
 
 
@@ -255,12 +281,15 @@ class Sender:
         if reset_seq:
             self.seq = 0
 
-    def packet(self, payload, padding=None, pad_bytes=None):
+    def packet(self, payload, padding=None, pad_bytes=None, extra_blocks=0):
+        """One wire packet for `payload` (type byte + body). padding: explicit padding
+        length (caller guarantees alignment); pad_bytes: explicit padding content;
+        extra_blocks: that many blocks more than the minimal padding."""
         d = self.d
         if self.compress is not None:
             payload = self.compress(payload)
         excl = d.aead or d.etm
-        pad = padding_for(len(payload), d.block, excl) if padding is None else padding
+        pad = padding_for(len(payload), d.block, excl, extra_blocks) if padding is None else padding
         padb = (b"\x00" * pad) if pad_bytes is None else pad_bytes
         body = u8(pad) + payload + padb
         plen = u32(len(body))
@@ -284,7 +313,7 @@ class NeedMore(Exception):
 
 
 class Receiver:
-    """Decodes a byte stream; `feed` then `packets()` yields (seq, payload)."""
+    """Decodes a byte stream; `feed` then `packets()` yields (seq, payload, padding)."""
 
     def __init__(self):
         self.d = PlainDirection()
@@ -292,6 +321,10 @@ class Receiver:
         self.buf = b""
         self.decompress = None
         self._first = None  # decrypted first block of a classic packet
+        # facts about the packet returned last (for framing checks on raw bytes):
+        # packet_length field, padding length, MAC/tag length, total wire bytes consumed,
+        # length of the (still compressed) payload, size of the encrypted span
+        self.last_info = None
 
     def rekey(self, direction, reset_seq=False):
         self.d = direction
@@ -373,6 +406,15 @@ class Receiver:
         if pad + 1 > len(body):
             raise RefError("bad padding")
         payload = body[1 : len(body) - pad]
+        self.last_info = {
+            "packet_length": ln,
+            "padding": pad,
+            "mac_len": d.mac_len,
+            "wire_len": 4 + ln + d.mac_len,
+            "raw_payload_len": len(payload),
+            "encrypted_span": ln if (d.aead or d.etm) else 4 + ln,
+            "length_in_clear": bool(d.aead or d.etm or d.kind == "none"),
+        }
         if self.decompress is not None:
             try:
                 payload = self.decompress(payload)
